@@ -12,7 +12,10 @@
 //	agreement-after-removal   after RemovePeer(x) a node agrees with a node configured without x
 //	agreement-under-health    nodes with the same health view compute the same healthy owner
 //	fallback-follows-rank     the healthy owner is the first eligible entry of the ranked list
-//	served-by-exactly-one-pool / same-node-id-from-every-entry / node-id-equals-owner   (end to end)
+//	served-by-exactly-one-pool / same-node-id-from-every-entry / node-id-equals-owner   (end to end, also while an owner that
+//	                          every node still regards as healthy does not answer, and after it is back)
+//	reported-ring-equals-membership, ranked-agreement and all of the above on every state of membership event histories
+//	                          (history_test.go)
 package c17
 
 import (
@@ -35,15 +38,25 @@ var run *vk.Run
 
 func TestMain(m *testing.M) {
 	run = vk.Start("C17", "exploration")
-	run.Rule("peer sets of size 1-8 from curated and seeded arbitrary strings (empty, blanks, common prefixes, unicode, invalid UTF-8, host:8081 and ip:port forms); every permutation for size<=5 (50/200 seeded shuffles above) x construction variants (full list, self omitted, spare capacity, AddPeer in that order, prefix+AddPeer, repeated AddPeer); 10^3 (thorough 10^4) subscriber ids (MACs, circuit ids, empty, unicode, raw bytes); every single removal from every other node, removal chains and re-adds; all 2^n health vectors for n<=4 (thorough n<=6) set through the real checkPeer against loopback HTTP servers answering 200/500/closed, seeded health walks on sets up to 8 through an in-memory transport; 3-node clusters over loopback HTTP with requests entering at every node. Non-trivial = a distinct (peer set, order, variant) with >=2 peers whose subscriber sample was spread over >=2 owners, a distinct (set, observer, removed/unhealthy peer) where that peer owned some subscribers and other peers owned others, or a distinct end-to-end subscriber whose request was forwarded over HTTP from at least one entry node")
+	run.Rule("peer sets of size 1-8 from curated and seeded arbitrary strings (empty, blanks, common prefixes, unicode, invalid UTF-8, host:8081 and ip:port forms); every permutation for size<=5 (50/200 seeded shuffles above) x construction variants (full list, self omitted, spare capacity, AddPeer in that order, prefix+AddPeer, repeated AddPeer); 10^3 (thorough 10^4) subscriber ids (MACs, circuit ids, empty, unicode, raw bytes); every single removal from every other node, removal chains and re-adds; all 2^n health vectors for n<=4 (thorough n<=6) set through the real checkPeer against loopback HTTP servers answering 200/500/closed, seeded health walks on sets up to 8 through an in-memory transport; 3-node clusters over loopback HTTP with requests entering at every node, including an episode in which a node does not answer while every node still regards it as healthy; membership event histories judged in every state against a set as reference model: every sequence of AddPeer/RemovePeer events (every name of the universe incl. the node's own id may be added, every other name removed, present or not) up to depth 5 (thorough 6, and 7 from the rings {node alone} and {everybody}) over universes of 4 names, delivered to each node of the universe from configured starting rings (alone, everybody, one ring in between; thorough all 8), the same with health flips through the real checkPeer in the alphabet over 3 names to depth 4 (thorough 5), and 300 (thorough 2000) seeded clusters of 3-6 nodes plus up to 2 non-node names in which every node gets its own configured ring, its own random history of 6-35 events and a shuffled tail that takes all nodes to one target set and health view, after which nodes with equal reference set and view are compared with each other. Non-trivial = a distinct (universe, node, starting ring, event history) with at least one effective membership change that ends with >=2 members and >=2 distinct owners over the sample, a distinct (peer set, order, variant) with >=2 peers whose subscriber sample was spread over >=2 owners, a distinct (set, observer, removed/unhealthy peer) where that peer owned some subscribers and other peers owned others, or a distinct end-to-end subscriber whose request was forwarded over HTTP from at least one entry node")
 	run.Assume("nodes are constructed from independent copies of the peer list (NewPeerPool sorts the caller's slice in place)")
 	run.Assume("a peer set never contains both H and H:port: getPeerAddr resolves node id H to the listed address H:8081, i.e. the code treats the two as names of one node")
 	run.Assume("health views are per node; agreement under a health vector U is judged between nodes outside U that all see exactly U as unhealthy (a node always regards itself as eligible, by the anchored mechanism)")
+	run.Assume("event histories: a node never receives RemovePeer of its own id; health probes are delivered only for current members (as the health loop does) and a node's health view is read back through IsPeerHealthy; every node is compared with a node configured with exactly its reference set (so nodes with equal sets are compared with each other through that representative), and in the seeded clusters directly with each other")
 	run.Assume("loopback listeners use seeded port numbers (next free port on collision); the in-memory transport replaces only the TCP hop, the real handlers and the real http.Client code run")
 	run.Floor("owner_comparisons", 100000)
 	run.Floor("health_flips_observed", 50)
 	run.Floor("e2e_requests", 100)
 	run.Floor("e2e_http_forwards_observed", 30)
+	run.Floor("e2e_outage_requests_for_subscribers_of_unreachable_owner", 50)
+	run.Floor("histories_with_readd_of_present_peer", 100000)
+	run.Floor("histories_with_middle_element_removal", 50000)
+	run.Floor("histories_with_readd_of_present_peer_after_non_last_removal", 30000)
+	run.Floor("histories_with_remove_then_readd", 30000)
+	run.Floor("histories_with_remove_of_absent_peer", 30000)
+	run.Floor("history_shape_final_set_pairs_distinct", 30000)
+	run.Floor("history_health_flips_observed", 3000)
+	run.Floor("history_groups_with_three_or_more_nodes_compared", 20)
 	code := m.Run()
 	ec := run.Finish()
 	if code != 0 && ec == 0 {
